@@ -319,6 +319,128 @@ def thread_jumps(raw):
     return n
 
 
+def desugar_for_each(raws):
+    """`iter.for_each(closure)` with a closure literal is rewritten as the loop it stands for:
+
+        it = iter; f = closure
+        loop { match Iterator::next(&mut it) { Some(x) => f(x), None => break } }
+
+    so that (after the closure call is expanded in place) a `for` loop and the `for_each` spelling of it are one shape."""
+    n = 0
+    for bid, b in raws.items():
+        if b["kind"] not in ("fn", "method", "closure"):
+            continue
+        closures_here = {}
+        for bl in b["blocks"]:
+            for st in bl["stmts"]:
+                if st["k"] == "assign" and st["rv"]["k"] == "agg" and st["rv"].get("akind") == "closure" and not st["place"]["p"]:
+                    closures_here[st["place"]["l"]] = st["rv"].get("did")
+        if not closures_here:
+            continue
+        for bi in range(len(b["blocks"])):
+            bl = b["blocks"][bi]
+            t = bl["term"]
+            if t is None or t["k"] != "call" or bl.get("cleanup") or t.get("callee") != "std::iter::Iterator::for_each":
+                continue
+            if len(t["args"]) != 2 or t.get("target") is None:
+                continue
+            itp = t["args"][0].get("move") or t["args"][0].get("copy")
+            clp = t["args"][1].get("move") or t["args"][1].get("copy")
+            if itp is None or clp is None or clp["p"] or clp["l"] not in closures_here:
+                continue
+            cid = closures_here[clp["l"]]
+            cb = raws.get(cid)
+            if cb is None or cb["arg_count"] != 2:
+                continue
+            loc = t.get("loc")
+            it_ty = itp.get("ty", "?")
+            item_ty = cb["locals"][2]["ty"]
+            L = len(b["locals"])
+            l_it, l_ref, l_opt, l_d, l_x, l_env, l_tup, l_unit = range(L, L + 8)
+            cl_ty = clp.get("ty", "?")
+            b["locals"].extend([
+                {"ty": it_ty, "mut": True}, {"ty": "&mut " + it_ty, "mut": False},
+                {"ty": "std::option::Option<%s>" % item_ty, "mut": True}, {"ty": "isize", "mut": False},
+                {"ty": item_ty, "mut": False}, {"ty": "&mut " + cl_ty, "mut": False},
+                {"ty": "(%s,)" % item_ty, "mut": False}, {"ty": "()", "mut": False}])
+            B = len(b["blocks"])
+            bH, bS, bB, bC = B, B + 1, B + 2, B + 3
+
+            def place(l, ty, p=None):
+                return {"l": l, "p": p or [], "ty": ty}
+            # entry: move the iterator into a fresh local
+            bl["stmts"].append({"k": "assign", "place": place(l_it, it_ty), "rv": {"k": "use", "op": copy.deepcopy(t["args"][0])},
+                                "loc": loc, "dbg": "for_each: iterator"})
+            self_ty = (t.get("callee_args") or [it_ty])[0]
+            resolved = None
+            for ob in raws.values():
+                if ob["kind"] == "method" and ob.get("impl_trait") == "std::iter::Iterator" and ob["id"].endswith("::next") and \
+                        (ob.get("impl_self") or "").split("<")[0] == self_ty.split("<")[0]:
+                    resolved = ob["id"]
+            next_term = {"k": "call", "func": {"const": {"ty": "fn", "fn": "std::iter::Iterator::next", "fn_args": [self_ty]}},
+                         "callee": "std::iter::Iterator::next", "callee_crate": "core", "callee_local": False,
+                         "callee_args": [self_ty], "callee_full": "<%s as std::iter::Iterator>::next" % self_ty, "unsafe": False,
+                         "trait": "std::iter::Iterator", "resolved": resolved, "resolved_local": bool(resolved),
+                         "resolved_kind": "Item" if resolved else None, "resolved_args": [],
+                         "args": [{"move": place(l_ref, "&mut " + it_ty)}],
+                         "callables": [c_ for c_ in copy.deepcopy(t.get("callables", [])) if c_ != ["closure", cid]],
+                         "dest": place(l_opt, "std::option::Option<%s>" % item_ty), "target": bS, "unwind": t.get("unwind"),
+                         "loc": loc, "fn_loc": loc, "dbg": "for_each: next()", "desugared_for_each": True}
+            blkH = {"stmts": [{"k": "assign", "place": place(l_ref, "&mut " + it_ty),
+                               "rv": {"k": "ref", "mut": True, "place": place(l_it, it_ty)}, "loc": loc, "dbg": "for_each: &mut it"}],
+                    "term": next_term, "cleanup": False}
+            blkS = {"stmts": [{"k": "assign", "place": place(l_d, "isize"), "rv": {"k": "discr", "place": place(l_opt, "std::option::Option<%s>" % item_ty)},
+                               "loc": loc, "dbg": "for_each: discriminant"}],
+                    "term": {"k": "switch", "discr": {"move": place(l_d, "isize")}, "discr_ty": "isize", "targets": [[0, t["target"]], [1, bB]],
+                             "otherwise": bC, "loc": loc, "dbg": "for_each: match next()"}, "cleanup": False}
+            some_proj = [{"down": 1, "vname": "Some"}, {"f": 0, "name": "0", "owner": "std::option::Option<%s>" % item_ty,
+                                                       "owner_did": "std::option::Option", "ty": item_ty}]
+            call_term = {"k": "call", "func": {"const": {"ty": "fn", "fn": "std::ops::FnMut::call_mut", "fn_args": [cl_ty]}},
+                         "callee": "std::ops::FnMut::call_mut", "callee_crate": "core", "callee_local": False, "callee_args": [cl_ty],
+                         "callee_full": "<%s as std::ops::FnMut>::call_mut" % cl_ty, "unsafe": False, "trait": "std::ops::FnMut",
+                         "resolved": cid, "resolved_local": True, "resolved_kind": "closure", "resolved_args": [],
+                         "args": [{"move": place(l_env, "&mut " + cl_ty)}, {"move": place(l_tup, "(%s,)" % item_ty)}],
+                         "callables": [["closure", cid]], "dest": place(l_unit, "()"), "target": bH, "unwind": t.get("unwind"),
+                         "loc": loc, "fn_loc": loc, "dbg": "for_each: closure(item)"}
+            blkB = {"stmts": [
+                {"k": "assign", "place": place(l_x, item_ty), "rv": {"k": "use", "op": {"move": place(l_opt, item_ty, some_proj)}},
+                 "loc": loc, "dbg": "for_each: item"},
+                {"k": "assign", "place": place(l_env, "&mut " + cl_ty), "rv": {"k": "ref", "mut": True, "place": place(clp["l"], cl_ty)},
+                 "loc": loc, "dbg": "for_each: &mut closure"},
+                {"k": "assign", "place": place(l_tup, "(%s,)" % item_ty),
+                 "rv": {"k": "agg", "akind": "tuple", "ops": [{"move": place(l_x, item_ty)}]}, "loc": loc, "dbg": "for_each: (item,)"}],
+                "term": call_term, "cleanup": False}
+            blkC = {"stmts": [], "term": {"k": "unreachable", "loc": loc, "dbg": "unreachable"}, "cleanup": False}
+            b["blocks"].extend([blkH, blkS, blkB, blkC])
+            bl["term"] = {"k": "goto", "target": bH, "loc": loc, "dbg": "for_each desugared", "desugared_for_each": True}
+            n += 1
+            DESUGARED.append(cid)
+    return n
+
+
+DESUGARED = []
+
+
+def _covered_closures(raws, ids):
+    """closure literals that existed only to be handed to for_each and whose call has been expanded in place: their code
+    is analysed in the context of the loop, the stand-alone body is dropped"""
+    out = set()
+    for cid in set(ids):
+        created = 0
+        called = False
+        for b in raws.values():
+            for bl in b["blocks"]:
+                for st in bl["stmts"]:
+                    if st["k"] == "assign" and st["rv"]["k"] == "agg" and st["rv"].get("akind") == "closure" and st["rv"].get("did") == cid:
+                        created += 1
+                t = bl["term"]
+                if t is not None and t["k"] == "call" and (t.get("resolved") == cid or ["closure", cid] in (t.get("callables") or [])):
+                    called = True
+        if created == 1 and not called:
+            out.add(cid)
+    return out
+
+
 def _inline_closure_calls(raws):
     """`let f = |..| ..; f(x)`: a closure literal called directly in the body that creates it is expanded in place"""
     n = 0
@@ -373,8 +495,12 @@ def apply(data, known=None):
             continue
         cand[bid] = b
     if not cand:
+        del DESUGARED[:]
+        report["for_each_desugared"] = desugar_for_each(raws)
         report["closure_calls_inlined"] = _inline_closure_calls(raws)
-        report["jumps_threaded"] = sum(thread_jumps(b) for b in raws.values() if b["kind"] in ("fn", "method", "closure"))
+        gone = _covered_closures(raws, DESUGARED)
+        data["bodies"] = [b for b in data["bodies"] if b["id"] not in gone]
+        report["jumps_threaded"] = sum(thread_jumps(b) for b in data["bodies"] if b["kind"] in ("fn", "method", "closure"))
         return data, report
 
     def target_of(t):
@@ -420,6 +546,8 @@ def apply(data, known=None):
             break
     for bid in set(x for v in inlined_into.values() for x in v):
         _resolve_closure_calls(raws[bid])
+    del DESUGARED[:]
+    report["for_each_desugared"] = desugar_for_each(raws)
     report["closure_calls_inlined"] = _inline_closure_calls(raws)
     used_as_value = set()
     for b in raws.values():
@@ -436,6 +564,7 @@ def apply(data, known=None):
         (report["kept_as_bodies"] if keep else report["transparent_helpers"]).append(c)
         if not keep:
             remove.add(c)
+    remove |= _covered_closures(raws, DESUGARED)
     data["bodies"] = [b for b in data["bodies"] if b["id"] not in remove]
     report["jumps_threaded"] = sum(thread_jumps(b) for b in data["bodies"] if b["kind"] in ("fn", "method", "closure"))
     report["transparent_helpers"].sort()
